@@ -208,7 +208,7 @@ func init() {
 			cfg.Conns = 2 + r.Intn(5)
 			cfg.CIDTags = true
 			cfg.NRes = 4 + r.Intn(5)
-			cfg.W = map[string]int{"sub": 20, "unsub": 10, "get": 6, "call": 8, "callres": 5, "auth": 5, "new": 2, "token": 10, "change": 8, "add": 4, "remove": 3, "custom": 6, "reaccess": 3, "answer": 10, "quiesce": 3}
+			cfg.W = map[string]int{"sub": 20, "unsub": 10, "get": 6, "call": 8, "callres": 5, "auth": 5, "new": 2, "token": 12, "tokenreset": 6, "change": 8, "add": 4, "remove": 3, "custom": 6, "reaccess": 3, "answer": 10, "quiesce": 3}
 			return cfg
 		})
 	})
